@@ -493,6 +493,77 @@ def backendAccess : Option WireAccess → Option AccessCfg
   | none => none
   | some x => if x.enabled then some x.cfg else none
 
+/-! ### `backendpb.(*ScheduleSettings).toInternal`: the optional parts of the wire schedule
+
+Every message-typed field of a proto3 message may be absent.  `ParentalSettings.schedule` absent
+means "no schedule"; inside a present schedule `weekly_range`, every day of it and both bounds of a
+day (`google.protobuf.Duration`) may be absent as well. -/
+
+/-- Wire `DayRange` in whole minutes (`AsDuration` of an absent duration is 0; the end is
+inclusive on the wire). -/
+structure WireDay where
+  start : Option Nat
+  stop : Option Nat
+deriving DecidableEq, Repr
+
+/-- Wire `ScheduleSettings`: `tz = none` when `agdtime.LoadLocation(tmz)` fails; `weekly = none`
+when `weekly_range` is absent, else the seven optional days Sunday … Saturday. -/
+structure WireSchedule where
+  tz : Option Nat
+  weekly : Option (List (Option WireDay))
+deriving DecidableEq, Repr
+
+/-- How a converter call ends: a value, an error (the profile is skipped by the receive loop), or
+a run-time panic (nothing of the response is applied and the caller's goroutine unwinds). -/
+inductive Conv (α : Type)
+  | ok (a : α)
+  | reject
+  | panic
+deriving DecidableEq, Repr
+
+/-- One day: `Start = uint16(minutes)`, `End = uint16(minutes + 1)`, then `DayInterval.Validate`
+(the zero interval is valid; otherwise `Start ≤ End`, `Start ≤ 1439`, `End ≤ 1440`). -/
+def dayConv (d : WireDay) : Option DayIvl :=
+  let i : DayIvl := ⟨UInt16.ofNat (d.start.getD 0), UInt16.ofNat (d.stop.getD 0 + 1)⟩
+  if i = ⟨0, 0⟩ then some i
+  else if i.stop < i.start ∨ i.start > 1439 ∨ i.stop > 1440 then none
+  else some i
+
+/-- The loop over the seven days: an absent day stays `nil`, the first invalid day fails the whole
+schedule. -/
+def weekConv : List (Option WireDay) → Option (List (Option DayIvl))
+  | [] => some []
+  | none :: r => (weekConv r).map (none :: ·)
+  | some d :: r =>
+    match dayConv d, weekConv r with
+    | some i, some w => some (some i :: w)
+    | _, _ => none
+
+def mkSchedule (tz : Nat) (w : List (Option DayIvl)) : Schedule :=
+  { sun := w.getD 0 none, mon := w.getD 1 none, tue := w.getD 2 none, wed := w.getD 3 none,
+    thu := w.getD 4 none, fri := w.getD 5 none, sat := w.getD 6 none, tz := tz }
+
+/-- The default `WeeklyRange` message: no day set. -/
+def emptyWeek : List (Option WireDay) := List.replicate 7 none
+
+/-- `(*ScheduleSettings).toInternal` as repaired: the days are read with the generated nil-safe
+getters, so an absent `weekly_range` is the default message. -/
+def backendSchedule : Option WireSchedule → Conv (Option Schedule)
+  | none => .ok none
+  | some x =>
+    match x.tz with
+    | none => .reject
+    | some tz =>
+      match weekConv (x.weekly.getD emptyWeek) with
+      | none => .reject
+      | some w => .ok (some (mkSchedule tz w))
+
+/-- The converter before the repair: after the time zone was loaded it read `w.Sun … w.Sat` of the
+`weekly_range` pointer directly — a nil dereference when the message is absent. -/
+def backendScheduleOld : Option WireSchedule → Conv (Option Schedule)
+  | some { tz := some _, weekly := none } => .panic
+  | x => backendSchedule x
+
 /-! ### Load decisions -/
 
 def fileCacheVersion : Nat := 15
